@@ -19,10 +19,16 @@ import (
 	"encoding/json"
 	"fmt"
 	"reflect"
+	"runtime/debug"
 	"strings"
 
 	"verif/harness/core"
 )
+
+func init() {
+	// an export that loses its identity cache recurses forever on a cyclic graph: die quickly (the parent attributes the death to the case)
+	debug.SetMaxStack(96 << 20)
+}
 
 func Check() *core.Check {
 	return &core.Check{
@@ -41,7 +47,7 @@ func Check() *core.Check {
 		},
 		Cases: func(tier string) int {
 			if tier == "thorough" {
-				return 800000
+				return 500000
 			}
 			return 30000
 		},
